@@ -9,6 +9,6 @@ PROPS = {
                 note="Sizes, thread counts, reader behaviours and fault plans are sampled around the boundaries (fixed grid + seeded random); thread interleavings are whatever the scheduler "
                      "produced under -race. FLOOD_WAIT waits use the real clock (no clock injection in the uploader) so flood cases are few. Part content is compared through keyed 64-bit "
                      "fingerprints. For streams whose length is an exact multiple of the part size no part ever carries the final count; this is counted, not judged "
-                     "(the statement only binds parts sent after the count is known). Resumed uploads and sources that lie about their size are not covered.",
+                     "(the statement only binds parts sent after the count is known). Resumed uploads and sources that lie about their size are not covered. The engine re-executes itself once with GORACE clear_shadow_mmap_threshold raised (shadow cleared by memset instead of re-mmap; detection unchanged) because every part buffer of 64 KiB or more otherwise costs hundreds of page faults under -race.",
                 watchdog={"quick": 900, "thorough": 3600}),
 }
